@@ -165,6 +165,8 @@ pub fn parse_number(data: &[u8], index: &mut usize, negative: bool) -> Result<Pa
     let mut exponent: i64 = 0;
     let mut trunc = false;
     let raw_num = &data[*index..];
+    // keep the sign of a zero literal
+    let zero = if negative { -0.0 } else { 0.0 };
 
     if match_digit!(data, *index, b'0') {
         *index += 1;
@@ -172,7 +174,7 @@ pub fn parse_number(data: &[u8], index: &mut usize, negative: bool) -> Result<Pa
         if *index >= data.len() || !matches!(data[*index], b'.' | b'e' | b'E') {
             // view -0 as float number
             if negative {
-                return Ok(ParserNumber::Float(0.0));
+                return Ok(ParserNumber::Float(zero));
             }
             return Ok(ParserNumber::Unsigned(0));
         }
@@ -196,7 +198,7 @@ pub fn parse_number(data: &[u8], index: &mut usize, negative: bool) -> Result<Pa
                     while is_digit!(data, *index) {
                         *index += 1;
                     }
-                    return Ok(ParserNumber::Float(0.0));
+                    return Ok(ParserNumber::Float(zero));
                 }
 
                 // we calculate the first digit here for two reasons:
@@ -204,7 +206,7 @@ pub fn parse_number(data: &[u8], index: &mut usize, negative: bool) -> Result<Pa
                 // 2. we only need parse at most 16 digits in parse_number_fraction
                 // and it is friendly for simd
                 if !is_digit!(data, *index) {
-                    return Ok(ParserNumber::Float(0.0));
+                    return Ok(ParserNumber::Float(zero));
                 }
 
                 significant = digit!(data, *index);
@@ -237,7 +239,7 @@ pub fn parse_number(data: &[u8], index: &mut usize, negative: bool) -> Result<Pa
                 while is_digit!(data, *index) {
                     *index += 1;
                 }
-                return Ok(ParserNumber::Float(0.0));
+                return Ok(ParserNumber::Float(zero));
             }
             _ => unreachable!("unreachable branch in parse_number_unchecked"),
         }
